@@ -154,7 +154,7 @@ func (l *Lab) Add(req *pluginpb.CodeGeneratorRequest, opt PkgOpt) (*Added, error
 			r2.Parameter = &param
 			r = &r2
 		}
-		res := l.TB.Run(p, r, plugin.RunOpt{})
+		res := RunDecoy(l.TB, p, r, plugin.RunOpt{})
 		ad.Results[p] = res
 		if !res.OK() {
 			ad.Refused = fmt.Sprintf("%s: crash=%s error=%s", p, res.Crash, res.Error)
